@@ -115,7 +115,7 @@ Section Ins.
     assert (B : tbase t).
     { refine (rfold_ind _ tbase ss _ t _ (tbase_new g c false) Hb). intros; eapply exec_tbase; eauto. }
     unfold commit in H. destruct (t_rows t) as [|w wr] eqn:E; [inversion H; subst; auto|].
-    destruct (validate c t); [|discriminate]. inversion H; subst; clear H.
+    destruct (validate g c t); [|discriminate]. inversion H; subst; clear H.
     unfold apply_writes. rewrite E. rewrite <- E in *.
     fold (add_writes (c_last c + 1) (t_rows t) (c_rows c)).
     apply live_rows_lookup; [simpl; apply add_writes_nodup; apply (w_nodup c W)|]. simpl.
@@ -134,7 +134,7 @@ Proof. intros Hs H. eapply insert_batch_preserves; eauto. apply run_cwf. Qed.
 
 (* the premises are satisfiable: auto-generated keys next to explicit ones *)
 Example insert_preserves_premise :
-  let g := mkCfg true false 3 false in
+  let g := mkCfg true false 3 false false in
   let evs := [(0, AAuto [SIns MInsert [(None, VInt 1, VNull)]]); (0, AAuto [SIns MInsert [(Some (VInt 5), VInt 2, VNull)]])] in
   let ss := [SIns MInsert [(None, VInt 3, VNull); (None, VInt 4, VNull)]] in
   forallb plain_insert ss = true /\
